@@ -61,10 +61,10 @@ def main():
         else:
             cmdw = build_cmd_from_demo(demo, old_root, scratch, mdir)
         res["demo_build_cmd"] = cmdw
-        # shell demos: run a copy of the whole demo directory with the agent's worktree path replaced by the scratch one
-        shdir = None
+        # a copy of the whole demo directory inside the scratch tree (relative paths in build recipes; shell demos run
+        # there with the agent's worktree path replaced by the scratch one)
+        shdir = os.path.join(scratch, "MUTATION", os.path.basename(mdir)); shutil.copytree(mdir, shdir)
         if cmdw is None and demo.endswith(".sh"):
-            shdir = os.path.join(scratch, "MUTATION", os.path.basename(mdir)); shutil.copytree(mdir, shdir)
             for fn in os.listdir(shdir):
                 fp = os.path.join(shdir, fn)
                 try:
